@@ -116,7 +116,7 @@ class Adapter(EnvAdapter):
             ]
             # time-limit sweep ("for every value passed"): primes and powers of two, one random episode each,
             # no probes; the cube is scrambled 100 times, so random play does not solve it before the limit
-            out += [_scr(f"n2_t{t}_sweep", 2, t, 100, 1, t + 2, ["random"], probe_every=0, props=["C03", "C11"])
+            out += [_scr(f"n2_t{t}_sweep", 2, t, 100, 1, t + 2, ["random"], probe_every=0, props=["C01", "C03", "C11", "C12"])
                     for t in T_SWEEP_QUICK]
             out += [_lab(n, "ids", np.int32) for n in (2, 3, 4, 5)]
             out += [_lab(n, "ids", np.int8) for n in (2, 3, 4)]
@@ -142,7 +142,7 @@ class Adapter(EnvAdapter):
             ]
             if 6 * n * n <= 127:
                 out.append(_lab(n, "ids", np.int8, max_steps=6))
-        out += [_scr(f"n2_t{t}_sweep", 2, t, 100, 1, t + 2, ["random"], probe_every=0, props=["C03", "C11"])
+        out += [_scr(f"n2_t{t}_sweep", 2, t, 100, 1, t + 2, ["random"], probe_every=0, props=["C01", "C03", "C11", "C12"])
                 for t in T_SWEEP_THOROUGH]
         return out
 
